@@ -18,6 +18,13 @@ def gen_consts(v):
     ents += [('ALL_DEVICES_UID', '((unsigned long long)ola::rdm::UID::AllDevices().ManufacturerId() << 32) | '
                                  'ola::rdm::UID::AllDevices().DeviceId()'),
              ('UID_SIZE', 'ola::rdm::UID::UID_SIZE')]
+    ents += [('RDM_DUB_RESPONSE', 'ola::rdm::RDM_DUB_RESPONSE'),
+             ('MAX_OVERFLOW_SIZE', 'ola::rdm::RDMResponse::MAX_OVERFLOW_SIZE'),
+             ('INVALID_COMMAND', 'ola::rdm::RDMCommand::INVALID_COMMAND')]
+    ents += [('SIZE_' + f, 'sizeof(((ola::rdm::RDMCommandHeader*)0)->%s)' % f) for f in (
+        'sub_start_code message_length destination_uid source_uid transaction_number port_id message_count '
+        'sub_device command_class param_id param_data_length').split()]
+    ents += [('OFF_sub_start_code', 'offsetof(ola::rdm::RDMCommandHeader, sub_start_code)')]
     ents += [('HEADER_SIZE', 'sizeof(ola::rdm::RDMCommandHeader)'),
              ('MAX_PARAM_DATA_LENGTH', 'ola::rdm::RDMCommandSerializer::MAX_PARAM_DATA_LENGTH'),
              ('CHECKSUM_LENGTH', 'ola::rdm::CHECKSUM_LENGTH'),
@@ -45,7 +52,9 @@ RULE = ('frames: length x message-length byte x PDL byte x command class x check
         'frames built by both RDMFrame constructors with and without prepend_start_code); RDMFrame construction with '
         'the first data byte over all 256 values x both constructors x both option values; requests with '
         'OverrideOptions (sub-start code / message length / checksum); response builders (GetResponseFromData, '
-        'GetResponseWithPid, NackWithReason x2); Duplicate; operator== on one-field mutations; non-trivial = frame '
+        'GetResponseWithPid, NackWithReason x2); discovery request builders; CombineResponses around the 231/4096 limits; '
+        'FromFrame/DUBReply keep the frame and its timing; NULL pointer with a claimed length; Duplicate; setters; '
+        'operator== on one-field mutations; non-trivial = frame '
         'accepted / command packed / equality compared; distinct = distinct model output line')
 ASSUMPTIONS = ['operator new does not fail', 'decoders are given exact-size heap copies so ASan sees any over-read']
 TRUSTED = ['modelled rather than verified: RDMCommand.cpp VerifyData/CalculateChecksum/GuessMessageType/Inflate/'
@@ -53,8 +62,9 @@ TRUSTED = ['modelled rather than verified: RDMCommand.cpp VerifyData/CalculateCh
            'Pack(buffer) are compared with the model of Pack(ByteString) by the harness), PackWithStartCode, '
            'RDMReply::FromFrame, RDMFrame constructors, GetResponseWithPid/GetResponseFromData/NackWithReason, '
            'Duplicate, RDMCommand::operator==; constants and header offsets regenerated into Gen.v; '
-           'not modelled: RDMResponse::CombineResponses, RDMReply::DUBReply/operator==/ToString, RDMCommand::ToString/Print, '
-           'NewDiscoveryUniqueBranchRequest/NewMuteRequest/NewUnMuteRequest']
+           'RDMResponse::CombineResponses, RDMReply::DUBReply, RDMFrame::operator==, the discovery request builders, '
+           'setters, IsDUB; not modelled: RDMReply::operator==/ToString, RDMCommand::ToString/Print; '
+           'message-length OverrideOptions are modelled and compared but only the default value is characterised by a theorem']
 
 CCS = [0x10, 0x11, 0x20, 0x21, 0x30, 0x31]
 
@@ -213,6 +223,26 @@ def gen_entry_points(rng, tier):
             yield 'disc %s %d %d %d %s' % (k, rand_uid(rng), rand_uid(rng), tn, port)
     for L in [0, 1, 19, 20, 21, 22, 23, 24, 25, 26, 255, 256, 300]:
         yield 'null %d' % L
+    # (g) CombineResponses (ACK_OVERFLOW reassembly) and RDMReply/RDMFrame bookkeeping (frame kept, timing untouched)
+    for i in range(150 if quick else 3000):
+        cc = rng.choice([0x21, 0x31, 0x21, 0x31, 0x11])
+        x = rand_cmd(rng, cc=cc, n=rng.choice([0, 1, 100, 115, 116, 231, 2047, 2048, 2049, 4095, 4096]))
+        y = rand_cmd(rng, cc=cc if rng.random() < 0.8 else rng.choice([0x21, 0x31, 0x11]),
+                     n=rng.choice([0, 1, 115, 116, 131, 231, 2047, 2048, 2049]))
+        if rng.random() < 0.8: y['src'] = x['src']
+        yield 'combine %s %s' % (cmd_s(x), cmd_s(y))
+    for i in range(150 if quick else 3000):
+        rs = rand_cmd(rng, cc=rng.choice([0x11, 0x21, 0x31]), n=rng.choice([0, 1, 5]))
+        rs['port'] = rng.choice([0, 0, 1, 2, 3, 4])
+        fr = [0xcc] + frame_of(rs, ckdelta=rng.choice([0, 0, 0, 1]))
+        if rng.random() < 0.2: fr = fr[:rng.randrange(len(fr))]
+        tm = ','.join(str(rng.choice([0, 1, 0xffffffff, 0x80000000, rng.randrange(1 << 32)])) for _ in range(4))
+        rqs = '-'
+        if rng.random() < 0.4:
+            rq = rand_cmd(rng, cc=rs['cc'] - 1)
+            rq['src'], rq['dst'], rq['tn'], rq['sub'] = rs['dst'], rs['src'], rs['tn'], rs['sub']
+            rqs = cmd_s(rq)
+        yield 'reply %s %s %s' % (rqs, tm, hx(fr))
     # (e) RDMCommand::operator== on commands differing in at most one field
     for i in range(300 if quick else 5000):
         x = rand_cmd(rng, n=rng.choice([0, 1, 2, 3, 16, 231]))
@@ -322,7 +352,10 @@ def nontrivial(payload, md):
 LEVEL_TEXT = ('Coq theorems over an executable model of the RDM codec (all decoders total and free of '
               'out-of-range reads; acceptance conditions; pack/inflate round trip for every well-formed command, stated '
               'separately for each decoder entry point and for frames built by the RDMFrame constructors; responses '
-              'built by GetResponseFromData/NackWithReason match their request; '
+              'built by GetResponseFromData/NackWithReason match their request; exact (iff) acceptance per entry point and '
+              'matching for every request/response pair; decoded fields = header bytes at the compiler-generated '
+              'offsets/sizes; canonical re-serialisation for every entry point; OverrideOptions (sub-start code, checksum), '
+              'CombineResponses, frame/reply bookkeeping; all constants regenerated from the headers and pinned (c05_consts); '
               'canonical frames re-pack to the same bytes; request/response matching statuses), for all byte '
               'strings and all command values; model tied to the C++ by a differential correspondence check '
               '(ASan/UBSan build of /repo working tree) and constants/offsets regenerated from the headers.')
